@@ -3,6 +3,7 @@ import warnings
 from collections.abc import Iterable
 
 from .vector import Vector
+from .alias_tracker import _ALIAS_TRACKER
 
 from .naming import _sanitize_user_name
 
@@ -426,7 +427,10 @@ class Table(Vector):
 				cols = list(self._underlying)
 				value._name = self._underlying[col_idx_indexed]._name  # Preserve original name
 				cols[col_idx_indexed] = value
-				object.__setattr__(self, '_underlying', tuple(cols))
+				new_cols = tuple(cols)
+				_ALIAS_TRACKER.unregister(self, id(self._underlying))
+				object.__setattr__(self, '_underlying', new_cols)
+				_ALIAS_TRACKER.register(self, id(new_cols))
 				object.__setattr__(self, '_column_map', self._build_column_map())
 				return
 			
@@ -447,7 +451,10 @@ class Table(Vector):
 				cols = list(self._underlying)
 				value._name = self._underlying[col_idx]._name  # Preserve original name
 				cols[col_idx] = value
-				object.__setattr__(self, '_underlying', tuple(cols))
+				new_cols = tuple(cols)
+				_ALIAS_TRACKER.unregister(self, id(self._underlying))
+				object.__setattr__(self, '_underlying', new_cols)
+				_ALIAS_TRACKER.register(self, id(new_cols))
 				
 				# Rebuild column map to reflect any structural changes
 				object.__setattr__(self, '_column_map', self._build_column_map())
